@@ -1662,6 +1662,29 @@ def run(ctx: Context):
     # -- 5. from_string guards --------------------------------------------------
     _pw = {}
 
+    def _computed_flags(w):
+        """The path-wise monitors know a permission flag by what it is bound to: `not <context>`, a boolean constant, a
+        copy of such a local - and learn the alleged prefixes from the branches taken.  A local that a parse function
+        with gated classes tests for truth and that is *computed* from the context (`not (deep_immutable or imm)`,
+        `can_be_mutable and not ro`, with imm / ro returned by a helper or bound to the value of a prefix test) carries
+        what a prefix test found by value, not by the branch taken: no path-wise reading of it; the clauses are decided
+        on the abstract execution of the scenarios instead (helpers executed in place)."""
+        plain = N()
+        for q in sorted({fn.qual for (fn, di, n, k, call) in w.sites if RO[k.qual] is not True or MUT[k.qual] is not False}):
+            (fn, di) = w.funcs[q]
+            flags = _flag_locals(fn, di)
+            for n in fn.cfg().nodes:
+                if n.kind != "test":
+                    continue
+                f = plain.cmp(n.ast, True)
+                if not (f and f[0] in ("truth", "false") and isinstance(f[1], str)):
+                    continue
+                x = f[1]
+                if x in flags or x in fn.params or x not in _local_names(fn):
+                    continue
+                if di in depends_on(fn, ast.Name(id=x, ctx=ast.Load())):
+                    raise _ByValue("%s tests %s, a flag computed from the %s context and other values" % (fn.qual, x, di))
+
     def parse_walk():
         if "w" not in _pw:
             fs = idx.func("uri:from_string")
@@ -1670,6 +1693,7 @@ def run(ctx: Context):
             w = _ParseWalk(idx, byq)
             try:
                 w.walk(fs, "deep_immutable")
+                _computed_flags(w)
             except _ByValue as e:
                 # table-driven dispatch: no branch per class for the path-wise monitors of C16.5/.9/.10/.13/.16 to
                 # attach to; each of them decides its clause on the abstract execution of the scenarios instead
@@ -1987,7 +2011,7 @@ def run(ctx: Context):
     with ctx.rule("C16.7", "R6", "deep_immutable reaches uri.from_string and UnknownNode unchanged from create_from_cap / "
                   "UnknownNode.__init__ / DirectoryNode._create_and_validate_node; the node cache key separates the contexts",
                   expected=5) as r:
-        def passes(fn, tail, want_nf, what, positional=None):
+        def passes(fn, tail, want_nf, what, positional=None, _depth=0):
             found = 0
             fnorm = FlowNorm(fn)
             for n in fn.cfg().nodes:
@@ -2008,6 +2032,34 @@ def run(ctx: Context):
                     got = fnorm.norm(n, a)
                     r.require(got == want_nf, fn, fn.loc(c), "%s passes deep_immutable=%s to %s (expected %s)" % (
                         short(fn), got, tail, want_nf))
+            if not found and _depth < 3 and fn.cls is not None and isinstance(want_nf, str) and want_nf in fn.params:
+                # the call was moved into a helper method of the same object: follow `self.m(..)` where the context is
+                # handed on unchanged (positionally or by keyword) and look for the call there, under the helper's name for it
+                for n in fn.cfg().nodes:
+                    for c in (node_calls(n) if n.kind in ("stmt", "test") else []):
+                        f = c.func
+                        if not (isinstance(f, ast.Attribute) and isinstance(f.value, ast.Name) and f.value.id == "self"):
+                            continue
+                        tgt = fn.cls.lookup(f.attr)
+                        if not isinstance(tgt, FuncInfo) or tgt is fn or not any(True for _c in calls_in_func(tgt, tail)):
+                            continue
+                        if any(isinstance(a, ast.Starred) for a in c.args) or any(kw.arg is None for kw in c.keywords):
+                            raise AnalysisError("%s calls %s with */** arguments: cannot follow the context" % (fn.qual, tgt.name))
+                        tps = first_positional_params(tgt)
+                        if tps and tps[0] == "self" and not any(
+                                isinstance(d, ast.Name) and d.id == "staticmethod" for d in tgt.node.decorator_list):
+                            tps = tps[1:]
+                        bound = [(tps[i] if i < len(tps) else None, a) for i, a in enumerate(c.args)]
+                        bound += [(kw.arg, kw.value) for kw in c.keywords]
+                        carries = [p_ for (p_, a) in bound if p_ is not None and fnorm.norm(n, a) == want_nf]
+                        if len(carries) != 1:
+                            r.site(fn, c, what)
+                            found += 1
+                            r.violation(fn, fn.loc(c), "%s calls its helper %s, which calls %s, without handing on %s unchanged: "
+                                        "the context is lost" % (short(fn), tgt.name, tail, want_nf))
+                            continue
+                        passes(tgt, tail, carries[0], what, positional, _depth + 1)
+                        found += 1
             if not found:
                 raise AnchorVanished("%s no longer calls %s" % (fn.qual, tail))
         cfc = idx.func("nodemaker:NodeMaker.create_from_cap")
